@@ -282,4 +282,26 @@ PROPS['C11'] = {
     'level_note': 'Partial: the proof is about a syntactic over-approximation, third-party calls are trusted.',
 }
 
+DICOM_FUNCS = ['dicom_scale', 'transpose_dicom', 'reset_dicom_slope_intercept', 'rescale_slope_intercept']
+PROPS['C16'] = {
+    'requires': DICOM_FUNCS, 'corr': corr_multi(corr_fn('C16', DICOM_FUNCS, 60, 1500), corr_classtab()), 'search': 'C16',
+    'trusted_base': CLASSTAB_TRUSTED + [
+        'header model (lib/PyRt.v: header): PixelSpacing, RescaleSlope, RescaleIntercept plus ONE opaque token for all other '
+        'keys; the translator accepts only the fresh-dict idiom (res = {}; for k, v in d.items(): res[k] = v) as a copy and '
+        'only stores under the three known keys',
+        'rescale_slope_intercept is translated at voxel level (img : one number); ndarray broadcasting is NumPy; float64 '
+        'arithmetic is modelled by exact rationals (exact whenever raw*slope+intercept is an integer below 2^53)',
+        'the image-side resampling factor named in the theorems (scale, max_size/max(shape), target/extent) is read off the '
+        'image path by hand; that the SciPy resize really produces round(extent*factor) voxels is explored (C07)'],
+    'assumptions': ['volume extents are positive', 'raw*slope+intercept is an integer within the int16 range'],
+    'level_text': 'Theorems on code regenerated from the source: header helpers (scale / transpose / reset) change exactly their '
+                  'field; every class with an apply_to_dicom of its own (table theorem lists them: all others inherit the '
+                  'identity) multiplies PixelSpacing by the factor its image path is resampled by, Transpose and odd xy quarter '
+                  'turns swap it, SetPixelSpacing reaches the requested spacing; RescaleSlopeIntercept is exact for integer- and '
+                  'float-valued headers, keeps the Hounsfield meaning of (voxels, header) and is idempotent. Pipelines of '
+                  'resampling / transposing / cropping / padding / flipping / pixel-level steps on non-cubic volumes with '
+                  'anisotropic spacing are explored step by step against the measured image factor.',
+    'level_note': 'Trusted: Coq kernel, translator (header idioms), classtab extractor, exact-rational model of float64.',
+}
+
 NOT_CLAIMED = {}
